@@ -1,6 +1,7 @@
 package main
 
 import (
+	"regexp"
 	"fmt"
 	"go/token"
 	"go/types"
@@ -105,19 +106,16 @@ func ruleW1(p *Prog, r *Report) {
 	}
 }
 
-func rulesC07(p *Prog, r *Report) {
+// rulesAllowedSet (S1, S3): the nodes the matcher sees are exactly the nodes of the allowed entries —
+// each entry becomes a node independently, and the slice is only permuted or compacted exactly.
+func rulesAllowedSet(p *Prog, r *Report) {
 	r.Rule("S1", "sufficient", 1, "each allowed entry becomes a node independently of the others: the node stored at position i is parse(list[i]) and nothing else is carried around the loop")
-	r.Rule("S2", "sufficient", 3, "the allowed nodes enter the verdict only as the domain of one existential search in positive position (so the verdict depends on the set of nodes and is monotone in it); the list is otherwise only tested for emptiness")
-	r.Rule("S3", "sufficient", 1, "between construction and use the allowed-node slice is only permuted or compacted in place (sort.Slice, copying an element of the slice over another element of the same slice)")
-	r.Rule("S4", "sufficient", 1, "the caller's list is only read (taint of the allowedList parameter reaches no write)")
-
+	r.Rule("S3", "sufficient", 1, "between construction and use the allowed-node slice is only permuted or compacted in place (sort.Slice, copying an element of the slice over another element of the same slice), and the compaction skips an element only when its canonical text equals its neighbour's")
 	qz := &quantizer{p: p, elemVar: map[ssa.Value]string{}}
-	// S1
 	s2n := p.Func(p.ExpPkg, "stringsToNodes")
 	sat := p.Func(p.ExpPkg, "Satisfies")
-	isc := p.Func(p.ExpPkg, "isCompatible")
-	if s2n == nil || sat == nil || isc == nil {
-		r.Unknown("S1", "anchor", "-", "unresolved anchor: stringsToNodes / Satisfies / isCompatible")
+	if s2n == nil || sat == nil {
+		r.Unknown("S1", "anchor", "-", "unresolved anchor: stringsToNodes / Satisfies")
 		return
 	}
 	r.Funcs[p.shortKey(s2n)] = true
@@ -156,6 +154,62 @@ func rulesC07(p *Prog, r *Report) {
 			r.OK("S1", "stringsToNodes", p.pos(s2n.Pos()), "nodes[i] = parse(list[i])", "", true)
 		}
 	}
+	// S3: callees that receive the allowed nodes in Satisfies
+	{
+		var nodesVal ssa.Value
+		for _, b := range sat.Blocks {
+			for _, in := range b.Instrs {
+				if ex, ok := in.(*ssa.Extract); ok && ex.Index == 0 {
+					if c, ok := ex.Tuple.(*ssa.Call); ok && c.Call.StaticCallee() == s2n {
+						nodesVal = ex
+					}
+				}
+			}
+		}
+		if nodesVal == nil {
+			r.Unknown("S3", "Satisfies|allowed nodes", p.pos(sat.Pos()), "kind=undecided: the allowed-node slice is not the direct result of stringsToNodes")
+		} else {
+			var bad []string
+			n := 0
+			for _, ref := range *nodesVal.Referrers() {
+				c, ok := ref.(*ssa.Call)
+				if !ok {
+					if _, isDbg := ref.(*ssa.DebugRef); !isDbg {
+						bad = append(bad, fmt.Sprintf("used by %T at %s", ref, p.pos(ref.Pos())))
+					}
+					continue
+				}
+				callee := c.Call.StaticCallee()
+				if callee == nil || !p.InModule(callee) {
+					bad = append(bad, "passed to "+c.Call.Value.Name())
+					continue
+				}
+				n++
+				if msg := onlyPermutes(p, callee, map[*ssa.Function]bool{}); msg != "" {
+					bad = append(bad, callee.Name()+": "+msg)
+				}
+			}
+			if len(bad) > 0 {
+				r.Bad("S3", "Satisfies|allowed nodes", p.pos(sat.Pos()), strings.Join(bad, "; "))
+			} else {
+				r.OK("S3", "Satisfies|allowed nodes", p.pos(sat.Pos()), "only permuted/compacted or read", fmt.Sprintf("%d callees", n), true)
+			}
+		}
+	}
+}
+
+func rulesC07(p *Prog, r *Report) {
+	r.Rule("S2", "sufficient", 3, "the allowed nodes enter the verdict only as the domain of one existential search in positive position (so the verdict depends on the set of nodes and is monotone in it); the list is otherwise only tested for emptiness")
+	r.Rule("S4", "sufficient", 1, "the caller's list is only read (taint of the allowedList parameter reaches no write)")
+
+	s2n := p.Func(p.ExpPkg, "stringsToNodes")
+	sat := p.Func(p.ExpPkg, "Satisfies")
+	isc := p.Func(p.ExpPkg, "isCompatible")
+	if s2n == nil || sat == nil || isc == nil {
+		r.Unknown("S1", "anchor", "-", "unresolved anchor: stringsToNodes / Satisfies / isCompatible")
+		return
+	}
+	rulesAllowedSet(p, r)
 	// S2: formula polarity
 	f, _, err := satisfiesFormula(p)
 	if err != nil || f.has("unknown") {
@@ -230,48 +284,6 @@ func rulesC07(p *Prog, r *Report) {
 			r.OK("S2", "isCompatible|uses of allowed", p.pos(isc.Pos()), "ranged only", "", true)
 		}
 	}
-	// S3: callees that receive the allowed nodes in Satisfies
-	{
-		var nodesVal ssa.Value
-		for _, b := range sat.Blocks {
-			for _, in := range b.Instrs {
-				if ex, ok := in.(*ssa.Extract); ok && ex.Index == 0 {
-					if c, ok := ex.Tuple.(*ssa.Call); ok && c.Call.StaticCallee() == s2n {
-						nodesVal = ex
-					}
-				}
-			}
-		}
-		if nodesVal == nil {
-			r.Unknown("S3", "Satisfies|allowed nodes", p.pos(sat.Pos()), "kind=undecided: the allowed-node slice is not the direct result of stringsToNodes")
-		} else {
-			var bad []string
-			n := 0
-			for _, ref := range *nodesVal.Referrers() {
-				c, ok := ref.(*ssa.Call)
-				if !ok {
-					if _, isDbg := ref.(*ssa.DebugRef); !isDbg {
-						bad = append(bad, fmt.Sprintf("used by %T at %s", ref, p.pos(ref.Pos())))
-					}
-					continue
-				}
-				callee := c.Call.StaticCallee()
-				if callee == nil || !p.InModule(callee) {
-					bad = append(bad, "passed to "+c.Call.Value.Name())
-					continue
-				}
-				n++
-				if msg := onlyPermutes(p, callee, map[*ssa.Function]bool{}); msg != "" {
-					bad = append(bad, callee.Name()+": "+msg)
-				}
-			}
-			if len(bad) > 0 {
-				r.Bad("S3", "Satisfies|allowed nodes", p.pos(sat.Pos()), strings.Join(bad, "; "))
-			} else {
-				r.OK("S3", "Satisfies|allowed nodes", p.pos(sat.Pos()), "only permuted/compacted or read", fmt.Sprintf("%d callees", n), true)
-			}
-		}
-	}
 	// S4
 	taint := p.TaintArgs()
 	key := "spdxexp.Satisfies:" + sat.Params[1].Name()
@@ -287,6 +299,9 @@ func rulesC07(p *Prog, r *Report) {
 		r.OK("S4", key, p.pos(sat.Pos()), "taint reaches no write", "", true)
 	}
 	ruleW1(p, r)
+	// the clause "re-spelling a listed id in another letter case never changes the answer" is the
+	// case-canonicalisation chain of C09 applied to allowed entries (each entry goes through parse).
+	rulesC09(p, r)
 }
 
 // onlyPermutes: fn (and its in-module callees) writes elements of node slices only through sort.Slice
@@ -326,6 +341,14 @@ func onlyPermutes(p *Prog, fn *ssa.Function, seen map[*ssa.Function]bool) string
 				if ok, _ := fb.prove(t, []constraint{geq(si, di, "destination ≤ source")}); !ok {
 					return fmt.Sprintf("%s: an element is copied over an element at a later or unrelated position (%s ← %s): a node can disappear from the allowed set", p.pos(t.Pos()), describeIdx(ia.Index), describeIdx(src.Index))
 				}
+				// the copy is what keeps an element; the element that is NOT copied is dropped. Dropping is
+				// harmless only when the dropped node has the same canonical text as a kept one, so the copy
+				// must happen at least whenever the canonical texts of the two neighbours differ: among the
+				// branch conditions that guard the copy there is none other than "canonical texts differ"
+				// (or "the two elements are not the same node").
+				if msg := compactionGuardExact(p, fn, t); msg != "" {
+					return fmt.Sprintf("%s: %s", p.pos(t.Pos()), msg)
+				}
 			case *ssa.Call:
 				if bi, ok := t.Call.Value.(*ssa.Builtin); ok {
 					if bi.Name() == "append" && containsNodes(t.Type(), node) {
@@ -361,10 +384,85 @@ func onlyPermutes(p *Prog, fn *ssa.Function, seen map[*ssa.Function]bool) string
 	return ""
 }
 
+var canonDiffRe = regexp.MustCompile(`^\(\*\(\*spdxexp\.node\)\.reconstructedLicenseString\((elem\([^()]*\))\) (!=|==) \*\(\*spdxexp\.node\)\.reconstructedLicenseString\((elem\([^()]*\))\)\)$`)
+var elemDiffRe = regexp.MustCompile(`^\((elem\([^()]*\)) (!=|==) (elem\([^()]*\))\)$`)
+
+// compactionGuardExact: every branch condition that dominates the element copy st inside its loop is
+// the literal "the canonical texts of two elements of the slice differ" (or pointer inequality of two
+// elements). Any other conjunct makes the dedup criterion coarser than textual identity: two allowed
+// nodes that the matcher tells apart could be merged and one of them lost.
+func compactionGuardExact(p *Prog, fn *ssa.Function, st *ssa.Store) string {
+	qz := &quantizer{p: p, elemVar: map[ssa.Value]string{}, inlineAll: true}
+	b := st.Block()
+	// the loop header that contains the store: nearest dominator that is a loop header
+	var lits []*qf
+	found := false
+	for cur := b; cur != nil; cur = cur.Idom() {
+		d := cur.Idom()
+		if d == nil {
+			break
+		}
+		if iff, ok := d.Instrs[len(d.Instrs)-1].(*ssa.If); ok && len(d.Succs) == 2 {
+			tdom := d.Succs[0].Dominates(b) && len(d.Succs[0].Preds) == 1
+			fdom := d.Succs[1].Dominates(b) && len(d.Succs[1].Preds) == 1
+			if tdom != fdom {
+				if isLoopHeader(d) {
+					found = true
+					break // the loop's own continuation test
+				}
+				f := qz.boolOf(iff.Cond, map[*ssa.Phi]*qf{})
+				if fdom {
+					f = qNot(f)
+				}
+				lits = append(lits, f)
+			}
+		}
+	}
+	if !found {
+		return "an element copy outside a loop is not a compaction"
+	}
+	if len(lits) == 0 {
+		return "" // unconditional copy: nothing is dropped by a guard
+	}
+	var flat []*qf
+	var fl func(q *qf)
+	fl = func(q *qf) {
+		if q.Op == "and" {
+			for _, a := range q.Args {
+				fl(a)
+			}
+			return
+		}
+		flat = append(flat, q)
+	}
+	for _, l := range lits {
+		fl(l)
+	}
+	for _, l := range flat {
+		neg := false
+		a := l
+		if a.Op == "not" {
+			neg = true
+			a = a.Args[0]
+		}
+		if a.Op != "atom" {
+			return "the element copy of the compaction is guarded by " + l.String() + ", which is not the test that the canonical texts of two neighbouring elements differ: nodes the matcher tells apart can be merged and one of them lost"
+		}
+		m := canonDiffRe.FindStringSubmatch(a.Atom)
+		if m == nil {
+			m = elemDiffRe.FindStringSubmatch(a.Atom)
+		}
+		if m == nil || m[1] != m[3] || (m[2] == "!=") == neg {
+			return "the element copy of the compaction is guarded by " + l.String() + ", which is not the test that the canonical texts of two neighbouring elements differ: nodes the matcher tells apart can be merged and one of them lost"
+		}
+	}
+	return ""
+}
+
 func init() {
 	register("C07", &propDef{
 		Level:   "other",
-		Explain: "A sound sufficient condition for order-, duplicate-independence and monotonicity in the allowed list: S1 each entry becomes a node independently (nodes[i] = parse(list[i])), S3 the node slice is only permuted or compacted before use, S2 the verdict (derived as a quantified formula from the loops and early exits of Satisfies/isCompatible) uses the allowed nodes only as the domain of one positive existential, S4 the caller's list is only read, W1 spacing cannot reach the parser (tokens carry no position). Together with purity of the pair matcher (C13) the verdict depends only on the set of nodes and is monotone in it. Residual, not decided: that the in-place compaction of sortAndDedup never drops the last copy of a node (its result is discarded today), and re-spelling by letter case (C09).",
+		Explain: "A sound sufficient condition for order-, duplicate-independence and monotonicity in the allowed list: S1 each entry becomes a node independently (nodes[i] = parse(list[i])), S3 the node slice is only permuted or compacted before use, S2 the verdict (derived as a quantified formula from the loops and early exits of Satisfies/isCompatible) uses the allowed nodes only as the domain of one positive existential, S4 the caller's list is only read, W1 spacing cannot reach the parser (tokens carry no position). Together with purity of the pair matcher (C13) the verdict depends only on the set of nodes and is monotone in it. The in-place compaction may drop an element only when its canonical text equals that of a kept neighbour (S3: the copy is guarded by nothing but 'canonical texts differ'). The letter-case clause is decided by the canonicalisation chain K0–K3 (same rules as C09), run here because every allowed entry goes through parse. Residual, not decided: that equal canonical text implies equal node fields (trusted: reconstructedLicenseString renders all fields the matcher reads).",
 		Run:     rulesC07,
 		Trusted: []string{"go/ssa lowering", "sort.Slice permutes its argument"},
 	})
